@@ -776,12 +776,17 @@ func bgcScenarios(c *Ctx, n int) []bgcScenario {
 		{Name: "traffic-then-plain", Replicas: 4, HasTraffic: true, MinReadySeconds: 0, MaxSurge: J{"i": 1}, MaxUnavailable: J{"p": 25}, SType: "expected", HpaV2: []bgHPA{hpa},
 			Steps: []rsStep{{Replicas: J{"p": 50}, Weight: w(50), Pause: "manual"}, {Replicas: J{"p": 100}, Pause: "short"}}},
 	}
+	if c.Thorough() {
+		// the user's CloneSet is paused when the release starts (finding csPausedLost)
+		out = append(out, bgcScenario{Name: "user-paused", Replicas: 3, HasTraffic: false, MinReadySeconds: 0, MaxSurge: J{"i": 1}, MaxUnavailable: J{"i": 1}, SType: "expected", Paused: true,
+			Steps: []rsStep{{Replicas: J{"p": 100}, Pause: "short"}}})
+	}
 	for i := 0; i < n; i++ {
 		R := 1 + c.Rng.Intn(12)
 		k := 1 + c.Rng.Intn(3)
 		tr := c.Rng.Intn(3) != 0
 		sc := bgcScenario{Name: fmt.Sprintf("gen-%d", i), Replicas: R, HasTraffic: tr, MinReadySeconds: []int{0, 0, 10, 600}[c.Rng.Intn(4)],
-			SType: pickS(c, "expected", "expected", "empty"), Paused: c.Rng.Intn(12) == 0}
+			SType: pickS(c, "expected", "expected", "empty")}
 		if c.Rng.Intn(4) != 0 {
 			sc.MaxSurge = bgGenIOS(c, R, false)
 		}
@@ -837,7 +842,7 @@ func bgcFinStep(cs bgcCS) string {
 func runClosedLoopBG(c *Ctx) {
 	nScen := 2
 	if c.Thorough() {
-		nScen = 12
+		nScen = 7
 	}
 	scens := bgcScenarios(c, nScen)
 	budget := c.N
